@@ -224,12 +224,26 @@ func (C11) Generate(c *Ctx, r *Rand, index int) *Scenario {
 	if outFmt != "auto" {
 		argv = append(argv, "-o="+outFmt)
 	}
-	for _, f := range []string{"-P", "-r", "-N", "-I0", "-I7", "-0", "-e", "--xml-strict-mode", "--csv-auto-parse", "--xml-keep-namespace", "--xml-raw-token", "--header-preprocess=false", "--string-interpolation=false", "--lua-globals", "--lua-unquoted", "--properties-array-brackets", "--xml-skip-directives", "--xml-skip-proc-inst", "-C"} {
+	for _, f := range []string{"-P", "-r", "-N", "-I0", "-I7", "-I-1", "-I=-3", "-I99", "-0", "-e", "--xml-strict-mode", "--csv-auto-parse", "--xml-keep-namespace", "--xml-raw-token", "--header-preprocess=false", "--string-interpolation=false", "--lua-globals", "--lua-unquoted", "--properties-array-brackets", "--xml-skip-directives", "--xml-skip-proc-inst", "-C"} {
 		if rs.Chance(1, 22) {
 			argv = append(argv, f)
 		}
 	}
 	sc.Meta["keep_flags"] = []any{"-p=" + fi.Name}
+	if rs.Chance(1, 12) {
+		// no -p: the format comes from the file extension, which may name any format, also output-only ones
+		newName := "in." + Pick(rs, []string{"yaml", "yml", "json", "xml", "properties", "props", "csv", "tsv", "toml", "lua", "sh", "s", "shell", "base64", "uri", "p", "j", "y", "x", "c", "t", "l", "txt", "YAML", "Json"})
+		sc.Files[0].Name = newName
+		name = newName
+		var kept []string
+		for _, a := range argv {
+			if !strings.HasPrefix(a, "-p=") {
+				kept = append(kept, a)
+			}
+		}
+		argv = kept
+		sc.Meta["keep_flags"] = []any{}
+	}
 	if rs.Chance(1, 8) {
 		// the expression comes from a (possibly damaged) file
 		eb := []byte(expr)
